@@ -145,7 +145,7 @@ func engineConc(rep *Report) {
 		d := s.Zero.ProtoReflect().Descriptor()
 		cycles := findCycles(d)
 		nrounds := rounds
-		if len(cycles) > 0 && mineCase(ti, rounds) && deepDone < 3 {
+		if len(cycles) > 0 && mineCase(ti, rounds) && deepDone < perType(3, 12) {
 			nrounds++ // one more round on a deeply nested shared message (a few types per process)
 			deepDone++
 		}
